@@ -555,7 +555,7 @@ class Result(JsonSerializable):
             # choice in self._value, which is stored as a numpy array.
             assert isinstance(
                 p_value,
-                (int, np.int, np.int32,
+                (int, np.int32,
                  np.int64)), "Value for the CHOICETYPE must be an integer."
 
             self._value[p_value] += 1
